@@ -1,0 +1,48 @@
+//go:build verif
+
+// Contracts for package gtreap (in-memory KV store; read by /verif/gocv; comment-only effect with
+// the verif tag off).
+
+package gtreap
+
+// ---------------------------------------------------------------------------
+// C15: a batch is applied atomically: under the store lock, all of it or (on error) none of it,
+// and the lock is released on every return path
+// ---------------------------------------------------------------------------
+
+// The treap (github.com/blevesearch/gtreap) is persistent: Upsert / Delete return a new treap and
+// leave the receiver untouched; Get only reads. Assumed.
+//@ assume func gtreap.Treap.Get(t, target)
+//@   requires t != nil
+//@ assume func gtreap.Treap.Upsert(t, item, itemPriority)
+//@   requires t != nil
+//@   ensures result != nil
+//@ assume func gtreap.Treap.Delete(t, target)
+//@   requires t != nil
+//@   ensures result != nil
+//@ assume func rand.Int()
+//@ assume func store.MergeOperator.FullMerge(mo, key, existingValue, operands)
+//@   requires mo != nil
+
+// ExecuteBatch: lock balance and all-or-nothing. The published treap w.s.t changes only when the
+// whole batch succeeded.
+//@ func Writer.ExecuteBatch
+//@   props C15
+//@   mode int
+//@   locks
+//@   requires w != nil && w.s != nil && w.s.t != nil && w.s.mo != nil && !held(w.s.m)
+//@   requires implies(typeis(batch, *store.EmulatedBatch), batch.(*store.EmulatedBatch) != nil && batch.(*store.EmulatedBatch).Merger != nil && forall(k, 0, len(batch.(*store.EmulatedBatch).Ops), batch.(*store.EmulatedBatch).Ops[k] != nil))
+//@   modifies w.s.t
+//@   ensures !held(w.s.m)
+//@   ensures implies(result != nil, w.s.t == old(w.s.t))
+//@   ensures w.s.t != nil
+//@   loop 0: invariant w.s != nil && held(w.s.m) && w.s.mo != nil && w.s.t != nil && w.s == old(w.s)
+//@   loop 1: invariant w.s != nil && held(w.s.m) && w.s.mo != nil && w.s.t != nil && w.s == old(w.s)
+
+// Reader: a snapshot of the treap taken under the lock.
+//@ func Store.Reader
+//@   props C15
+//@   mode int
+//@   locks
+//@   requires s != nil && !held(s.m)
+//@   ensures !held(s.m) && result1 == nil && result0 != nil
